@@ -213,7 +213,9 @@ func stlMutate(m map[string]string) []byte {
 	return b
 }
 
-var shapeTexts = []string{"plain", "", "́ë leading combining mark", "ctrl\x00\x01\x1b\x7f\u0085", "\U0001F600 non-BMP \U000E0001", "\xff\xfe invalid utf-8", "x\ny\r\nz --> w"}
+var shapeTexts = []string{"plain", "", "́ë leading combining mark", "ctrl\x00\x01\x1b\x7f\u0085", "\U0001F600 non-BMP \U000E0001", "\xff\xfe invalid utf-8", "x\ny\r\nz --> w",
+	// marks that only reach the front of the text through canonical decomposition / reordering
+	"\u0341abc deprecated tone mark first", "\u0323\u0327x reordered marks first"}
 
 // buildShape builds a value of the public types in which each optional part is present or absent as the shape says.
 func buildShape(sh abs.IntMap) *astisub.Subtitles {
